@@ -123,6 +123,7 @@ def cov_report(pid):
             else:
                 missing.setdefault(rel, []).append([ln, q, src[ln - 1].strip()[:100]])
     root = os.path.dirname(os.path.dirname(os.path.dirname(os.path.abspath(__file__))))
+    os.makedirs(os.path.join(root, 'evidence', 'dev'), exist_ok=True)
     path = os.path.join(root, 'evidence', 'dev', '%s.coverage.json' % pid)
     with open(path, 'w') as f:
         json.dump(dict(property=pid, anchored_lines=total, reached=reached, missing=missing), f, indent=1)
